@@ -32,6 +32,7 @@ RULE += (" Also: results None/0/False/''/() ; keyword names self/key/args/typed;
 RULE += (' Also: lru_cache(maxsize=<anything>) construction against functools; opaque results.')
 RULE += (' Also: the decorator applied directly with typed (lru_cache(fn, True)); results that happen to be awaitable.')
 RULE += (' Also: re-entrant histories with warm-up nodes (the first run for an argument calls the cache for the same argument).')
+RULE += (' Also: re-entrant histories in which a run clears the cache it is computed for.')
 ASSUMPTIONS = ["functools.lru_cache (C implementation of the running 3.12 interpreter) is the reference",
                "cache_discard has no stdlib twin: reference is the cross-validated model"]
 EXHAUSTIVE_SUBSPACES = 'all histories of length <= 4 (thorough: 5) over 7 operations for maxsize 1 and 2'
@@ -95,6 +96,7 @@ def cases(tier, seed, shard, nshards):
         yield {"kind": "reentrant", "maxsize": rng.choice([None, 0, 1, 1, 2, 2, 3, 4, 6, "default"]), "children": children,
                "tops": tops, "fail": sorted(rng.sample(range(nn), rng.choice([0, 0, 0, 1]))),
                "warm": sorted(rng.sample(range(nn), rng.choice([0, 0, 1, 2]))),
+               "clearers": sorted(rng.sample(range(nn), rng.choice([0, 0, 0, 1]))),
                "form": rng.choice(["paren", "bare"])}
     for _ in range(N_RANDOM[tier] // nshards):
         small = rng.random() < 0.6
@@ -311,6 +313,7 @@ def run_reentrant(case, stats):
 
     warm = set(case.get("warm", ()))
     warmed_a, warmed_s = set(), set()
+    clearers = set(case.get("clearers", ()))  # runs for these arguments clear the cache they are being computed for
 
     async def af(n):
         loga.append(n)
@@ -320,6 +323,8 @@ def run_reentrant(case, stats):
             # run finishes, its own key is in the cache already
             warmed_a.add(n)
             parts.append(await ca(n))
+        if n in clearers:
+            ca.cache_clear()
         for c in children[n]:
             try:
                 parts.append(await ca(c))
@@ -335,6 +340,8 @@ def run_reentrant(case, stats):
         if n in warm and n not in warmed_s:
             warmed_s.add(n)
             parts.append(cs(n))
+        if n in clearers:
+            cs.cache_clear()
         for c in children[n]:
             try:
                 parts.append(cs(c))
@@ -360,6 +367,9 @@ def run_reentrant(case, stats):
             if n in warm and n not in warmed:
                 warmed.add(n)
                 parts.append(call(n))
+            if n in clearers:
+                store.clear()
+                info.update(hits=0, misses=0)
             for c in children[n]:
                 try:
                     parts.append(call(c))
@@ -384,7 +394,7 @@ def run_reentrant(case, stats):
     ca, cs = deco(A, af), deco(functools, sf)
     viols = []
     seen_a = []
-    head = f"lru_cache maxsize={case['maxsize']} form={case['form']} re-entrant children={children} fail={case['fail']} warm={sorted(warm)}"
+    head = f"lru_cache maxsize={case['maxsize']} form={case['form']} re-entrant children={children} fail={case['fail']} warm={sorted(warm)} clearers={sorted(clearers)}"
     depth_seen = 0
     for i, top in enumerate(case["tops"]):
         if top == "clear":
